@@ -150,3 +150,15 @@ class Ctx:
             "excluded": dict(self.excluded),
             "excluded_examples": self.excluded_examples,
         }
+
+
+def fail_unless_known(ctx: Ctx, prop: str, clause: str, subcase: dict, msg: str) -> None:
+    """Sub-case level failure: excluded (and counted) when an open known finding's input predicate holds on
+    `subcase`, otherwise a Violation. Lets a check continue past a listed finding inside one generated case."""
+    from . import findings  # noqa: PLC0415
+
+    f = findings.match(prop, clause, subcase)
+    if f is None:
+        raise Violation(clause, msg, detail={"subcase": subcase})
+    ctx.excluded[f["id"]] += 1
+    ctx.excluded_examples.setdefault(f["id"], {"clause": clause, "msg": msg[:300], "subcase": subcase})
